@@ -384,7 +384,7 @@ class HolsteinModel(Model):
             J constant extracted from ``self.j_matrix``.
         """
         j_set = set(self.j_matrix.ravel())
-        if len(j_set) == 0:
+        if len(j_set) == 1:
             return j_set.pop()
         elif len(j_set) == 2 and 0 in j_set:
             j_set.remove(0)
